@@ -45,6 +45,7 @@ Inductive value :=
 | VPeriod (d : str)
 | VStd (k : skind) (args : list Z)        (* all components: 3 / 4 / 7 *)
 | VEnum (c : cref) (m : str)
+| VFlag (c : cref) (z : Z)                 (* a value of a Flag class that is not a named member *)
 | VList (l : list value)
 | VTuple (l : list value)
 | VSet (frozen : bool) (l : list value)
@@ -53,7 +54,8 @@ Inductive value :=
 
 Inductive fdefault := DMissing | DValue (v : value) | DFactory (v : value).
 Record fdesc := { f_name : str; f_init : bool; f_default : fdefault }.
-Inductive ckind := KData (frozen : bool) (fds : list fdesc) | KEnum (members : list str).
+(* KEnum: member names (aliases included); for Flag classes the members' values, aligned *)
+Inductive ckind := KData (frozen : bool) (fds : list fdesc) | KEnum (members : list str) (flags : option (list Z)).
 Record cdesc := { c_ref : cref; c_kind : ckind }.
 Definition world := list cdesc.
 
@@ -62,7 +64,13 @@ Definition find_class (W : world) (c : cref) : option ckind :=
 Definition find_data (W : world) (c : cref) : option (list fdesc) :=
   match find_class W c with Some (KData _ fds) => Some fds | _ => None end.
 Definition enum_has (W : world) (c : cref) (m : str) : bool :=
-  match find_class W c with Some (KEnum ms) => existsb (str_eqb m) ms | _ => false end.
+  match find_class W c with Some (KEnum ms _) => existsb (str_eqb m) ms | _ => false end.
+(* P(z) for a Flag class P: the (first) member with that value, else the unnamed combination *)
+Fixpoint flag_member (ms : list str) (vals : list Z) (z : Z) : option str :=
+  match ms, vals with
+  | m :: ms', v :: vals' => if Z.eqb v z then Some m else flag_member ms' vals' z
+  | _, _ => None
+  end.
 Definition default_of (fd : fdesc) : option value :=
   match f_default fd with DMissing => None | DValue v => Some v | DFactory v => Some v end.
 
@@ -190,6 +198,7 @@ Fixpoint veq (nan_ok : bool) (a b : value) {struct a} : bool :=
   | VPeriod d => match b with VPeriod d' => str_eqb d d' | _ => false end
   | VStd k args => match b with VStd k' args' => skind_eqb k k' && lZ_eqb args args' | _ => false end
   | VEnum c m => match b with VEnum c' m' => cref_eqb c c' && str_eqb m m' | _ => false end
+  | VFlag c z => match b with VFlag c' z' => cref_eqb c c' && Z.eqb z z' | _ => false end
   | VList l =>
       match b with
       | VList l' =>
@@ -263,6 +272,7 @@ Fixpoint value_eqb (a b : value) {struct a} : bool :=
   | VPeriod x => match b with VPeriod y => str_eqb x y | _ => false end
   | VStd k args => match b with VStd k' args' => skind_eqb k k' && lZ_eqb args args' | _ => false end
   | VEnum c m => match b with VEnum c' m' => cref_eqb c c' && str_eqb m m' | _ => false end
+  | VFlag c z => match b with VFlag c' z' => cref_eqb c c' && Z.eqb z z' | _ => false end
   | VList l =>
       match b with
       | VList l' =>
@@ -507,6 +517,17 @@ Definition kw_known (fds : list fdesc) (kws : list (str * value)) : bool :=
 Fixpoint names_nodup (l : list str) : bool :=
   match l with [] => true | x :: r => negb (existsb (str_eqb x) r) && names_nodup r end.
 
+(* calling a Flag class with an int *)
+Definition flag_call (W : world) (c : cref) (args : list value) (kws : list (str * value)) : option value :=
+  match find_class W c, args, kws with
+  | Some (KEnum ms (Some vals)), [VInt z], [] =>
+      match flag_member ms vals z with
+      | Some m => Some (VEnum c m)
+      | None => Some (VFlag c z)
+      end
+  | _, _, _ => None
+  end.
+
 Definition class_call (W : world) (c : cref) (args : list value) (kws : list (str * value)) : option value :=
   match lib_kind c with
   | Some k => lib_call k args kws
@@ -518,7 +539,7 @@ Definition class_call (W : world) (c : cref) (args : list value) (kws : list (st
                   then option_map (VObj c) (construct fds kws) else None
           | _ => None
           end
-      | None => None
+      | None => flag_call W c args kws
       end
   end.
 
